@@ -264,6 +264,27 @@ def run_request(req):
                 for k in ('sub_error', 'data', 'sub_results'):
                     if hasattr(e, k):
                         out['exc_' + k] = jval(getattr(e, k))
+        elif kind == 'call_many':
+            # one decoder, several candidate inputs (replay of a loop-head counter-model): any that does not
+            # return within the CPU budget confirms non-termination
+            fn = resolve(req['function'])
+            runs = []
+            for cand in req['candidates']:
+                args = [unj(a) for a in cand]
+                r = {'args': cand}
+                try:
+                    with_budget(lambda: fn(*args), budget)
+                    r['outcome'] = 'return'
+                except Timeout:
+                    r['outcome'] = 'timeout'
+                except BaseException as e:
+                    r['outcome'] = 'raise'
+                    r['exc'] = type(e).__name__
+                runs.append(r)
+                if r['outcome'] == 'timeout':
+                    break
+            out['outcome'] = 'timeout' if any(r['outcome'] == 'timeout' for r in runs) else 'done'
+            out['runs'] = runs
         else:
             out['outcome'] = 'error'
             out['error'] = 'unknown request kind'
